@@ -272,7 +272,28 @@ def fam_policy():
                  [call("UGCPolicy"), call("UGCPolicy")], [call("StrictPolicy"), call("ZeroValue")]]
     return dict(name="policy", ctorpairs=ctorpairs, calls=calls, recipes=[], tokens=[])
 
-FAMS = dict(policy=fam_policy, ugc=fam_ugc, conf=fam_conf, loop=fam_loop, loopq=fam_loopq, link=fam_link, url=fam_url, forced=fam_forced, allow=fam_allow, style=fam_style)
+def fam_io():
+    """C15 / C16: entry points, writer kinds, write-failure indexes, reader-failure offsets."""
+    ugcx = [call("UGCPolicy"), call("AllowComments"), call("AddSpaceWhenStrippingTag", b=True)]
+    unsafe = [call("NewPolicy"), call("AllowElements", names=["b", "script", "style"]), call("AllowUnsafe", b=True), call("AllowComments")]
+    plain = [call("NewPolicy"), call("AllowElements", names=["b", "p"]), AA(["href"], ["a"])]
+    zero = [call("ZeroValue"), call("AllowElements", names=["b"])]
+    recipes = [ugcx, unsafe, plain, zero]
+    T = lambda d: tok("text", d=d)
+    docs = [
+        dict(blank=False, toks=[tok("start", "p"), T("Hello "), tok("start", "b"), T("w<orld"), tok("end", "b"), tok("comment", d=" c "), tok("end", "p")]),
+        dict(blank=False, toks=[tok("start", "blink"), T("x"), tok("end", "blink"), tok("start", "a", (("href", "http://e.com/?a=1&b=2"),)), T("l"), tok("end", "a")]),
+        dict(blank=False, toks=[tok("start", "script"), T("if (a<b) alert(1)"), tok("end", "script"), T("after"), tok("start", "style"), T("p{}"), tok("end", "style")]),
+        dict(blank=False, toks=[tok("start", "object"), T("in"), tok("comment", d="cc"), tok("end", "object"), T("out"), tok("doctype", d="html")]),
+        dict(blank=False, toks=[tok("comment", d="only")]),
+        dict(blank=False, toks=[T("just text & more")]),
+        dict(blank=True, toks=[T(" \n\t ")]),
+        dict(blank=True, toks=[]),
+        dict(blank=False, toks=[tok("start", "a"), tok("start", "img"), tok("end", "a"), tok("self", "b"), tok("start", "b"), tok("end", "b"), T("\u00e9\u4e2d")]),
+    ]
+    return dict(name="io", recipes=recipes, docs=docs, tokens=[])
+
+FAMS = dict(io=fam_io, policy=fam_policy, ugc=fam_ugc, conf=fam_conf, loop=fam_loop, loopq=fam_loopq, link=fam_link, url=fam_url, forced=fam_forced, allow=fam_allow, style=fam_style)
 
 if __name__ == "__main__":
     here = os.path.dirname(os.path.abspath(__file__))
